@@ -87,3 +87,72 @@ pub fn count_eq<T: PartialEq>(vals: &[T], n: usize, w: &T) -> usize {
     }
     c
 }
+
+// ------------------------------------------------------------------ 2-D layout menu
+//
+// A logical R x C array is given by `vals[i * C + j]`. `parent2` stores it in a parent
+// allocation whose geometry depends on `layout`; `view2` / `view2_mut` carve the logical array
+// back out (strides concrete on every branch):
+//   0: C-order, owned                      1: F-order (column-major)
+//   2: every second row and column of a (2R+1) x (2C+1) parent, offset (1,1)
+//   3: both axes reversed                  4: F-order parent, rows reversed
+pub const LAYOUTS_2D: u8 = 5;
+
+pub fn parent2<T: Copy>(vals: &[T], r: usize, c: usize, layout: u8, fill: T) -> Array2<T> {
+    match layout {
+        0 => Array2::from_shape_fn((r, c), |(i, j)| vals[i * c + j]),
+        1 => Array2::from_shape_fn((r, c).f(), |(i, j)| vals[i * c + j]),
+        2 => Array2::from_shape_fn((2 * r + 1, 2 * c + 1), |(a, b)| {
+            if a % 2 == 1 && b % 2 == 1 {
+                vals[(a / 2) * c + b / 2]
+            } else {
+                fill
+            }
+        }),
+        3 => Array2::from_shape_fn((r, c), |(i, j)| vals[(r - 1 - i) * c + (c - 1 - j)]),
+        _ => Array2::from_shape_fn((r, c).f(), |(i, j)| vals[(r - 1 - i) * c + j]),
+    }
+}
+
+pub fn view2<'a, T>(p: &'a Array2<T>, layout: u8) -> ArrayView2<'a, T> {
+    match layout {
+        0 | 1 => p.view(),
+        2 => p.slice(s![1..;2, 1..;2]),
+        3 => p.slice(s![..;-1, ..;-1]),
+        _ => p.slice(s![..;-1, ..]),
+    }
+}
+
+pub fn view2_mut<'a, T>(p: &'a mut Array2<T>, layout: u8) -> ArrayViewMut2<'a, T> {
+    match layout {
+        0 | 1 => p.view_mut(),
+        2 => p.slice_mut(s![1..;2, 1..;2]),
+        3 => p.slice_mut(s![..;-1, ..;-1]),
+        _ => p.slice_mut(s![..;-1, ..]),
+    }
+}
+
+/// Read logical element (i, j) straight from the parent allocation (independent of `view2`).
+pub fn at2<T: Copy>(p: &Array2<T>, r: usize, c: usize, layout: u8, i: usize, j: usize) -> T {
+    match layout {
+        0 | 1 => p[[i, j]],
+        2 => p[[1 + 2 * i, 1 + 2 * j]],
+        3 => p[[r - 1 - i, c - 1 - j]],
+        _ => p[[r - 1 - i, j]],
+    }
+}
+
+/// Is parent cell (a, b) one of the cells of the logical array?
+pub fn in_view2(layout: u8, a: usize, b: usize) -> bool {
+    match layout {
+        2 => a % 2 == 1 && b % 2 == 1,
+        _ => true,
+    }
+}
+
+/// A symbolic layout selector restricted to `mask` (bit k set = layout k allowed).
+pub fn pick_layout(mask: u8) -> u8 {
+    let l: u8 = kani::any();
+    kani::assume(l < LAYOUTS_2D && (mask >> l) & 1 == 1);
+    l
+}
